@@ -341,7 +341,7 @@ pub struct ExecutionState {
     #[cfg(not(feature = "verif-hooks"))]
     tasks: SmallVec<[Task; DEFAULT_INLINE_TASKS]>,
     #[cfg(feature = "verif-hooks")]
-    tasks: Vec<Task>,
+    tasks: crate::verif_support::TaskTable,
     // invariant: if this transitions to Stopped or Finished, it can never change again
     current_task: ScheduledTask,
     // the task the scheduler has chosen to run next
@@ -427,7 +427,7 @@ impl ExecutionState {
             #[cfg(not(feature = "verif-hooks"))]
             tasks: SmallVec::new(),
             #[cfg(feature = "verif-hooks")]
-            tasks: Vec::new(),
+            tasks: crate::verif_support::TaskTable::new(),
             current_task: ScheduledTask::None,
             next_task: ScheduledTask::None,
             has_yielded: false,
